@@ -69,6 +69,8 @@ class EndpointInterface:
         Strobe; pulses high when the device's configuration should be changed.
     new_config: Signal(8)
         When `config_changed` is high, this field contains the configuration that should be applied.
+    config_changed_in: Signal(), input to endpoint
+        Strobe; pulses high when a SET_CONFIGURATION request takes effect. Endpoints reset their data toggles on it.
 
     timer: InterpacketTimerInterface
         Interface to our interpacket timer.
@@ -90,6 +92,7 @@ class EndpointInterface:
         self.active_config         = Signal(8)
         self.config_changed        = Signal()
         self.new_config            = Signal(8)
+        self.config_changed_in     = Signal()
 
         self.clear_endpoint_halt_out = Signal(ClearEndpointHaltInterface)
         self.clear_endpoint_halt_in  = Signal(ClearEndpointHaltInterface)
@@ -218,6 +221,7 @@ class USBEndpointMultiplexer(Elaboratable):
                 shared.tokenizer                 .connect(interface.tokenizer),
 
                 interface.clear_endpoint_halt_in .eq(shared.clear_endpoint_halt_out),
+                interface.config_changed_in      .eq(shared.config_changed),
 
                 # Rx interface.
                 shared.rx                        .connect(interface.rx),
